@@ -825,8 +825,10 @@ func c17ModelIn(m gMode, ts []gTok, numKeys []int64, nameKeys, dollarKeys []stri
 
 const c17GuardMCO = "mco_digit_names"
 
-func c17Guard(m gMode, ts []gTok) string {
-	if m.ordered() && !m.ecma() && hasTag(ts, tNumbered) {
+// the known finding, as narrowed by /repo 2b27550: with a digit NAME in a position-numbered mode the name of an
+// unnamed group (its number) can also be the name of another group; nothing else is forgiven
+func c17Guard(m gMode, ts []gTok, d string) string {
+	if m.ordered() && !m.ecma() && hasTag(ts, tNumbered) && strings.HasPrefix(d, "GroupNumberFromName(GroupNameFromNumber(") {
 		return c17GuardMCO
 	}
 	return ""
@@ -873,7 +875,7 @@ func c17Emit(c *Ctx, kind string, ts []gTok, m gMode, inputs []string, imode int
 			d = c17Cross(impl.re, impl.m, m.ecma())
 		}()
 		if d != "" {
-			c.Add(&Case{Desc: desc, Direct: d, Guard: c17Guard(m, ts), Class: m.Name + "/cross"})
+			c.Add(&Case{Desc: desc, Direct: d, Guard: c17Guard(m, ts, d), Class: m.Name + "/cross"})
 		}
 	}
 	return
@@ -917,7 +919,7 @@ func legC17Maps(c *Ctx) {
 		}
 		for _, m := range gModes {
 			ts := base
-			if m.ordered() && hasTag(ts, tNumbered) && c.Rng.Chance(85) {
+			if m.ordered() && hasTag(ts, tNumbered) && c.Rng.Chance(40) {
 				ts = dropNumbered(c.Rng, ts)
 			}
 			impl, _ := c17Emit(c, "wild", ts, m, []string{"", "abc", "aabbcc()#\n", "x"}, 2)
@@ -1057,7 +1059,7 @@ func legC17Direct(c *Ctx) {
 		for _, m := range gModes {
 			func() {
 				ts := base
-				if m.ordered() && hasTag(ts, tNumbered) && c.Rng.Chance(85) {
+				if m.ordered() && hasTag(ts, tNumbered) && c.Rng.Chance(40) {
 					ts = dropNumbered(c.Rng, ts)
 				}
 				defer func() {
@@ -1072,13 +1074,12 @@ func legC17Direct(c *Ctx) {
 				}
 				desc := fmt.Sprintf("linear mode=%s pattern=%+q input=%q", m.Name, pat, input)
 				if impl.m == nil {
-					c.Add(&Case{Desc: desc, Direct: "the pattern does not match the input built from its letters", Guard: c17Guard(m, ts), Class: m.Name + "/nomatch"})
+					c.Add(&Case{Desc: desc, Direct: "the pattern does not match the input built from its letters", Class: m.Name + "/nomatch"})
 					return
 				}
 				mt := impl.m
-				guard := c17Guard(m, ts)
 				fail := func(d string) {
-					c.Add(&Case{Desc: desc, Direct: d, Guard: guard, Class: m.Name + "/direct"})
+					c.Add(&Case{Desc: desc, Direct: d, Guard: c17Guard(m, ts, d), Class: m.Name + "/direct"})
 				}
 				nums := impl.re.GetGroupNumbers()
 				names := impl.re.GetGroupNames()
